@@ -4,24 +4,30 @@ Import ListNotations.
 
 Definition parse_fuel (s : pystr) : nat := 2 * length s + 400.
 
-(* PyDBMLParser(source, allow_properties, renderers).parse() *)
-Definition parser_parse (source : pystr) (allow : bool) (sqlr dbmlr : nat) : M oid :=
+(* PyDBMLParser.parse: every blueprint the grammar produced is registered, in order *)
+Fixpoint register_all (l : list pyv) (st : pstate) : res pstate :=
+  match l with
+  | [] => Ok st
+  | bp :: r => do st' <- register st bp; register_all r st'
+  end.
+
+(* the blueprints of a source text: pyparsing run + parse_blueprint *)
+Definition blueprints_of (source : pystr) (allow : bool) : M pstate :=
   let s := expandtabs source in                      (* parse_string calls str.expandtabs() *)
   let top := if allow then gen_top_on else gen_top_off in
   let pall := if allow then gen_parse_all_on else gen_parse_all_off in
   match parse_string gen_env act s (parse_fuel s) top gen_default_whitespace pall with
-  | POk _ _ eff =>
-      do! st <- lift ((fix go (l : list pyv) (st : pstate) : res pstate :=
-                         match l with
-                         | [] => Ok st
-                         | bp :: r => do st' <- register st bp; go r st'
-                         end) eff ps_empty) ;;
-      build_database st allow sqlr dbmlr
+  | POk _ _ eff => lift (register_all eff ps_empty)
   | PFail => raise EParse
   | PFatal => raise EParseSyntax
   | PRaise e => raise e
   | POutOfFuel => stuck 500
   end.
+
+(* PyDBMLParser(source, allow_properties, renderers).parse() *)
+Definition parser_parse (source : pystr) (allow : bool) (sqlr dbmlr : nat) : M oid :=
+  do! st <- blueprints_of source allow ;;
+  build_database st allow sqlr dbmlr.
 
 (* the documented ways of supplying the source *)
 Inductive source :=
